@@ -27,6 +27,10 @@ CHECKS = {
                 text="HFInterp.tla states the five published piecewise functions with exact rationals; TLC evaluates as ASSUMEs, over a 12-triple grid (symmetric, asymmetric, inverted, one-sided, null, non-dyadic), the anchors (neutral at 0, up at +1, down at -1), value continuity at every seam, slope continuation of code 2, first/second-derivative continuity of code 4p, and A(alpha0)*AInv(alpha0)=Id6 for alpha0 in {1/2,1,2} with AInv transcribed from pyhf's literal (which is value/C1/C2 continuity of code 4). MC_HFInterp.tla is the state machine of one interpolator object under calls of varying alpha-set shape and backend switches (hidden state: cached shape, backend tag); TLC checks CachesMatchAtUse and that the branch each class takes (comparison operators as coded) yields the published value for every comparison outcome. A seeded share of all histories is replayed on the real classes: exact/symbolic value, bit-equality with a fresh interpolator, agreement of vectorised and scalar classes, continuity at floating-point neighbours of the breakpoints.",
                 note="trusted: TLC, mpmath pow/log; alpha restricted to a 15-point rational grid plus nextafter/subnormal neighbours of the breakpoints; triples from the 12-point grid; code-4 core compared through the specification's AInv",
                 technique="TLA+ ASSUMEs over exact rationals + TLC history machine + replay of TLC behaviours"),
+    "C04": dict(engine="prob", design="5 and 15/C04", level="exploration",
+                text="Prob.tla carries what a TLA+ model can carry of the probability primitives: the decimal argument lattice per precision (counts 0..1e8 integer and real, rates 0 / smallest denormal .. 1e8, sigma over 20 orders of magnitude, cdf arguments -38..38), the case split of the Poisson log-mass (rate->0 limits against the Gamma-continued formula), the terms of the error budget of each case, and the relations between calls that hold whatever the real values are (variants agree, Poisson recurrence, Phi reflection and monotonicity, location/scale equivariance on exactly representable triples). MC_Prob.tla is the call-session machine SetBackend -> Call; TLC checks the case split, that every argument lies inside the selected floating-point format, the ordered symmetric cdf chain and the exact representability of the equivariance triples, and prints every Call state as an obligation. The harness discharges every obligation on numpy/jax/pytorch/tensorflow x 64b/32b; real-number values of the symbolic term trees come from mpmath at the binary arguments actually passed. Exploration, not model checking: the specification decides the case structure and relations, the numeric oracle is the leaf evaluator.",
+                note="trusted: mpmath (60 digits) as the oracle of real values; 'a few units of rounding' taken as 32 eps (1 + sum|terms|), never stricter than the property; arguments are lattice points (accuracy between them is not decided); three recorded findings (jax and tensorflow do not honour denormal rates; tensorflow-probability's Normal cancels for large close x, mu)",
+                technique="TLA+ case lattice and call-session machine (TLC) + obligations discharged on every backend with an mpmath leaf evaluator"),
     "C05": dict(engine="fit", design="4/C05",
                 text="Fit.tla is the fit pipeline as a state machine (validate, shim strip-or-pass, nondeterministic but constrained minimiser, success assertion, stitch); TLC checks InBounds, FixedHeld, FreeFromMinimiser (stitch is the inverse of strip for every fixed mask), NoSuccessNoReturn exhaustively for 3 parameters. FitClosed.tla computes exact rational optima of two counting families. Binding B: hook H4 records every real fit (what shim received/produced, what the minimiser returned, what the caller got) and TLC validates each trace against TraceFit.tla in the order lane (exact comparisons of observed floats), including the honest-objective clause (re-evaluation through Model.logpdf). Binding A: real fits over optimiser x do_grad x do_stitch x backend must attain the exact optimum on the closed-form families and beat every point of the competitor set (the minimiser's choice set of Fit.tla) on a 3-parameter nuisance model. Protocol clauses are model-checked; global optimality is explored, not decided (DESIGN section 5).",
                 note="optimality beyond closed forms / finite competitor sets is not decided; tolerances: SLSQP 1e-5+1e-7|f|, MIGRAD 1e-3 (1e-2 at a bound optimum), calibrated on the unchanged tree and frozen; KF-C05-allfixed is a recorded finding",
@@ -85,9 +89,7 @@ CHECKS = {
                 technique="TLA+ fault-injection actions + TLC (FaultBreaksWF, CleanIsWF) + replay of every faulty state"),
 }
 
-NOT_APPLICABLE = [
-    {"property_id": "C04", "reason": "ulp-level accuracy of floating-point Poisson/Normal/Phi over real arguments has no state, history or case structure a TLA+ model can carry (TLC has checked 32-bit integers only); see DESIGN.md section 5"},
-]
+NOT_APPLICABLE = []
 
 ALL = [f"C{i:02d}" for i in range(1, 21)]
 PENDING_REASON = "not yet claimed: the specification module for this property is still being built (see DESIGN.md section 9); no check is registered yet"
@@ -143,6 +145,10 @@ def build():
             {"name": "backend", "path": "spec/Backend.tla spec/MC_Backend.tla spec/TraceBackend.tla harness/checks/c11.py harness/backend_replay.py harness/tracecheck.py",
              "serves_properties": ["C11"], "kind_free_text": "backend/event-registry state machine, simulated behaviours replayed, hook traces validated by TLC"},
             {"name": "cli", "path": "spec/Cli.tla spec/MC_Cli.tla harness/checks/c19.py harness/cli_replay.py", "serves_properties": ["C19"], "kind_free_text": "option record -> library call specification, CliRunner replay"},
+            {"name": "prob", "path": "spec/Prob.tla spec/MC_Prob.tla harness/checks/c04.py harness/prob_replay.py",
+             "serves_properties": ["C04"], "kind_free_text": "argument lattice, case split and relations of the probability primitives as a call-session machine; obligations discharged on every backend x precision (mpmath leaves)"},
+            {"name": "tensor", "path": "spec/Tensor.tla spec/MC_Tensor.tla harness/checks/xtensor.py harness/tensor_replay.py",
+             "serves_properties": ["C01", "C10", "C11", "C14"], "kind_free_text": "EXTRA (./vf extra tensor, not a registered check): tensor-library contract of the structural operations (reshape .. einsum, percentile) as a program machine with algebraic laws, replayed on every backend"},
             {"name": "hfvalidity", "path": "spec/MC_HFValidity.tla harness/checks/c20.py harness/validity.py",
              "serves_properties": ["C20"], "kind_free_text": "TLA+ fault injectors over the HFModel specification space, replayed into pyhf.Model / Workspace.model"},
         ],
